@@ -74,10 +74,15 @@ class MemoryStorageBackend(StorageBackend):
         results = []
         for fn_ref_with_arg_hash in fns:
             try:
-                memento_dict = self.mementos[
+                # Note: look up without creating an (empty) entry for the function
+                memento_dict = self.mementos.get(
                     fn_ref_with_arg_hash.fn_reference.qualified_name
-                ]
-                memento = memento_dict.get(fn_ref_with_arg_hash.arg_hash)
+                )
+                memento = (
+                    memento_dict.get(fn_ref_with_arg_hash.arg_hash)
+                    if memento_dict is not None
+                    else None
+                )
             except FunctionNotFoundError:
                 memento = None
             results.append(memento)
@@ -101,8 +106,8 @@ class MemoryStorageBackend(StorageBackend):
     ) -> bytes:
         # Ignore retry_on_none since the in-memory metadata store is consistent.
         memento_key = self._get_memento_key(fn_with_arg_hash)
-        metadata_dict = self.metadata[memento_key]  # type: Dict[str, bytes]
-        return metadata_dict.get(key)
+        metadata_dict = self.metadata.get(memento_key)  # type: Dict[str, bytes]
+        return metadata_dict.get(key) if metadata_dict is not None else None
 
     def write_metadata(
         self,
@@ -135,7 +140,7 @@ class MemoryStorageBackend(StorageBackend):
         ]
 
     def list_mementos(self, fn: FunctionReference, limit: int = None) -> List[Memento]:
-        return list(self.mementos[fn.qualified_name].values())[0:limit]
+        return list(self.mementos.get(fn.qualified_name, {}).values())[0:limit]
 
     def memoize(self, key_override: str, memento: Memento, result: object) -> None:
         if self.read_only:
@@ -159,9 +164,13 @@ class MemoryStorageBackend(StorageBackend):
         qualified_name = fn_with_arg_hash.fn_reference.qualified_name
         arg_hash = fn_with_arg_hash.arg_hash
         memento_key = qualified_name + "/" + arg_hash
-        memento_dict = self.mementos[qualified_name]
-        if arg_hash in memento_dict:
-            del memento_dict[arg_hash]
+        memento_dict = self.mementos.get(qualified_name)
+        if memento_dict is not None:
+            if arg_hash in memento_dict:
+                del memento_dict[arg_hash]
+            if not memento_dict:
+                # no live entry left: the function must no longer be listed
+                del self.mementos[qualified_name]
         if memento_key in self.result:
             del self.result[memento_key]
         if memento_key in self.metadata:
@@ -182,7 +191,13 @@ class MemoryStorageBackend(StorageBackend):
             self.forget_call(
                 memento.invocation_metadata.fn_reference_with_args.fn_reference_with_arg_hash()
             )
-        self.mementos[qualified_name].clear()
+        self.mementos.pop(qualified_name, None)
+        # Metadata (or results) recorded for calls of this function that have no memento
+        prefix = qualified_name + "/"
+        for key in [k for k in self.metadata.keys() if k.startswith(prefix)]:
+            del self.metadata[key]
+        for key in [k for k in self.result.keys() if k.startswith(prefix)]:
+            del self.result[key]
 
     def to_dict(self):
         config = {"type": "memory"}
